@@ -378,11 +378,83 @@ def _optype(f, op):
     return ""
 
 
+def _callers_of(prog, f):
+    if not hasattr(prog, "_callers"):
+        m = {}
+        for g in prog.defined():
+            for i in g.all_insts():
+                if i["op"] == "call" and i["callee"][0] == "f":
+                    t = prog.resolve(g.unit, i["callee"][1])
+                    if t is not None:
+                        m.setdefault(t.key, []).append((g, i))
+        prog._callers = m
+    return prog._callers.get(f.key, [])
+
+
+def resolve_fnptr(prog, f, op, depth=0, seen=None):
+    """Functions a function-pointer operand may denote: a function constant, a vtable slot load, a
+    select/phi of those (null contributes nothing), or a parameter (union over the actual arguments of
+    every direct caller).  Returns (targets, complete?)."""
+    seen = seen if seen is not None else set()
+    out, complete = [], True
+    while op[0] == "i" and f.insts[op[1]]["op"] in CASTS:
+        op = f.insts[op[1]]["ops"][0]
+    if op[0] == "ce" and op[1] == "bitcast":
+        return resolve_fnptr(prog, f, op[2][0], depth, seen)
+    if op[0] == "f":
+        g = prog.resolve(f.unit, op[1])
+        return ([g] if g is not None and not g.decl else []), g is not None
+    if op[0] in ("n", "z"):
+        return [], True
+    if depth > 4:
+        return [], False
+    if op[0] == "a":
+        key = (f.key, "a", op[1])
+        if key in seen:
+            return [], True
+        seen.add(key)
+        callers = _callers_of(prog, f)
+        if not callers or not f.internal:
+            complete = False
+        for (g, call) in callers:
+            if op[1] < len(call["ops"]):
+                t, c = resolve_fnptr(prog, g, call["ops"][op[1]], depth + 1, seen)
+                out += [x for x in t if x not in out]
+                complete = complete and c
+        return out, complete
+    if op[0] == "i":
+        i = f.insts[op[1]]
+        if i["op"] in ("phi", "select"):
+            ops = i["ops"] if i["op"] == "phi" else i["ops"][1:]
+            for o in ops:
+                if o == ["i", i["id"]]:
+                    continue
+                t, c = resolve_fnptr(prog, f, o, depth + 1, seen)
+                out += [x for x in t if x not in out]
+                complete = complete and c
+            return out, complete
+        if i["op"] == "load":
+            fake = {"callee": ["i", i["id"]], "fnty": None}
+            slot = indirect_slot(f, fake)
+            if slot:
+                for (u, n, gname) in prog.slot_targets(slot[0], slot[1]):
+                    g = prog.resolve(u, n)
+                    if g is not None and not g.decl and g not in out:
+                        out.append(g)
+                return out, True
+    return [], False
+
+
 def indirect_targets(prog, f, call):
     """Functions an indirect call may reach: the slot of every constant table of the vtable type;
-    when the slot cannot be recovered (optimised IR), every table entry of the same function type."""
+    a function-pointer parameter / select resolved through the callers' arguments;
+    when neither can be recovered (optimised IR), every table entry of the same function type."""
     slot = indirect_slot(f, call)
     out = []
+    if not slot and call["callee"][0] in ("i", "a"):
+        t, complete = resolve_fnptr(prog, f, call["callee"])
+        if t or complete:
+            return t
     if slot:
         for (u, n, gname) in prog.slot_targets(slot[0], slot[1]):
             g = prog.resolve(u, n)
